@@ -81,7 +81,7 @@ class C19(Check):
                    'JSON is Python\'s json module (Infinity/NaN tokens allowed, as the library itself writes them)']
 
     def budget(self, tier):
-        return (80, 8) if tier == 'quick' else (2000, 16)
+        return (160, 8) if tier == 'quick' else (2000, 16)
 
     def strategy(self, tier):
         return st.fixed_dictionaries(dict(spec=GL.lens_spec(FULL), ex=extras(), rays=ray_bundle(), wl=st.integers(0, 3)))
